@@ -588,4 +588,136 @@ theorem TInv.run : ∀ (os : List Obs) {tr seen}, TInv tr seen → (∀ o ∈ os
     have h2 := TInv.run os h1 (fun o' ho' => hg o' (by simp [ho']))
     simpa [Trace.run, List.append_assoc] using h2
 
+/-! ### `math.isclose` against 0.0, and the tracer callbacks with the `enabled` flag -/
+
+theorem isclose_zero_iff (rel : Rat) (_h0 : 0 ≤ rel) (h1 : rel < 1) (x : Num) :
+    isclose rel 0 x = x.eqZero := by
+  cases x with
+  | fin q =>
+    simp only [isclose, Num.eqZero, Num.eq, Rat.mul_zero]
+    by_cases hq : q = 0
+    · subst hq; simp
+    · have hd : 0 < (if q < 0 then -q else q) := by split <;> grind
+      generalize (if q < 0 then -q else q) = d at hd
+      have h2 : rel * d < d := by
+        have := Rat.mul_lt_mul_of_pos_right h1 hd
+        simpa using this
+      have h3 : ¬ d ≤ rel * d := by grind
+      have h4 : ¬ d ≤ 0 := by grind
+      simp [hq, h3, h4]
+  | nan => rfl
+  | pinf => rfl
+  | ninf => rfl
+
+theorem iscloseZero_eq (x : Num) : iscloseZero x = x.eqZero :=
+  isclose_zero_iff _ (by decide +kernel) (by decide +kernel) x
+
+theorem calls_disabled (r : Bool) (tr : Trace) : ∀ (cs : List Call) (s' : TState),
+    TState.calls r ⟨false, tr⟩ cs = some s' → s' = ⟨false, tr⟩
+  | [], s', h => by simp [TState.calls] at h; exact h.symm
+  | c :: cs, s', h => by
+    rw [TState.calls] at h
+    cases c with
+    | enter c =>
+      simp only [TState.call] at h
+      exact calls_disabled r tr cs s' (by simpa using h)
+    | pred p body res =>
+      simp only [TState.call] at h
+      cases res <;> cases body <;> simp at h
+      exact calls_disabled r tr cs s' h
+
+theorem calls_enabled_eq_run : ∀ (cs : List Call) (tr : Trace) (s' : TState),
+    TState.calls true ⟨true, tr⟩ cs = some s' → s' = ⟨true, tr.run (cs.filterMap Call.top)⟩
+  | [], tr, s', h => by simp [TState.calls] at h; simp [Trace.run, ← h]
+  | c :: cs, tr, s', h => by
+    rw [TState.calls] at h
+    cases c with
+    | enter c =>
+      simp only [TState.call, if_true] at h
+      have := calls_enabled_eq_run cs _ s' h
+      simpa [Call.top, Trace.run] using this
+    | pred p body res =>
+      simp only [TState.call, if_true] at h
+      cases hb : TState.calls true ⟨false, tr⟩ body with
+      | none => simp [hb] at h
+      | some s1 =>
+        have hs1 := calls_disabled true tr body s1 hb
+        subst hs1
+        simp only [hb] at h
+        cases res with
+        | skipped => simp at h
+        | raised =>
+          have := calls_enabled_eq_run cs _ s' h
+          simpa [List.filterMap_cons, Call.top, Trace.run] using this
+        | ok dT dF =>
+          have := calls_enabled_eq_run cs _ s' h
+          simpa [Call.top, Trace.run, Trace.step] using this
+
+
+/-- The callbacks a disabled tracer drops leave the state alone (and are accepted). -/
+theorem calls_skip_disabled (r : Bool) (tr : Trace) : ∀ (cs : List Call), cs.all Call.isSkip = true →
+    TState.calls r ⟨false, tr⟩ cs = some ⟨false, tr⟩
+  | [], _ => by simp [TState.calls]
+  | c :: cs, h => by
+    simp only [List.all_cons, Bool.and_eq_true] at h
+    rw [TState.calls]
+    cases c with
+    | enter c => simpa [TState.call] using calls_skip_disabled r tr cs h.2
+    | pred p body res =>
+      have h2 := h.2
+      cases res <;> cases body <;> simp only [Call.isSkip, Bool.false_eq_true, false_and] at h
+      simpa [TState.call] using calls_skip_disabled r tr cs h2
+
+/-- A history as the interpreter sees it: a code object is entered; a predicate is evaluated and the
+interpreter takes `e.outcome`; the evaluation of a predicate's operands raises (the interpreter takes
+no outcome).  `body`: callbacks made by operator code of the module under test while the tracer
+evaluates the operands. -/
+inductive CObs
+  | enter (c : Nat)
+  | eval (e : Eval) (body : List Call)
+  | raised (p : Nat) (body : List Call)
+
+def CObs.call : CObs → Call
+  | .enter c => .enter c
+  | .eval e body => .pred e.p body (.ok e.dT e.dF)
+  | .raised p body => .pred p body .raised
+
+def CObs.obs : CObs → Option Obs
+  | .enter c => some (.enter c)
+  | .eval e _ => some (.eval e)
+  | .raised _ _ => none
+
+/-- The nested callbacks arrive while the tracer is disabled: each is one a disabled tracer drops. -/
+def CObs.wf : CObs → Prop
+  | .enter _ => True
+  | .eval _ body => body.all Call.isSkip = true
+  | .raised _ body => body.all Call.isSkip = true
+
+theorem cobs_top (hist : List CObs) :
+    (hist.map CObs.call).filterMap Call.top = (hist.filterMap CObs.obs).map Obs.ev := by
+  induction hist with
+  | nil => rfl
+  | cons o os ih =>
+    cases o <;> simp [CObs.call, CObs.obs, Call.top, Obs.ev, List.filterMap_cons, ih]
+
+theorem calls_cobs_total : ∀ (hist : List CObs) (tr : Trace), (∀ o ∈ hist, o.wf) →
+    ∃ s', TState.calls true ⟨true, tr⟩ (hist.map CObs.call) = some s'
+  | [], tr, _ => ⟨⟨true, tr⟩, by simp [TState.calls]⟩
+  | o :: os, tr, hw => by
+    have hw' : ∀ o' ∈ os, o'.wf := fun o' ho' => hw o' (by simp [ho'])
+    have ho := hw o (by simp)
+    simp only [List.map_cons]
+    rw [TState.calls]
+    cases o with
+    | enter c =>
+      simp only [CObs.call, TState.call, if_true]
+      exact calls_cobs_total os _ hw'
+    | eval e body =>
+      simp only [CObs.call, TState.call, if_true, calls_skip_disabled true tr body ho]
+      exact calls_cobs_total os _ hw'
+    | raised p body =>
+      simp only [CObs.call, TState.call, if_true, calls_skip_disabled true tr body ho]
+      exact calls_cobs_total os _ hw'
+
+
 end PynguinModel.BranchInstr
